@@ -190,8 +190,7 @@ theorem getAttrsStep_in_range {c : Ctx} {ver : Nat} {o : Obj} {name : String} {a
               simp only [tattrInRange, Bool.and_eq_true]
               refine ⟨avalInRange_of_strong _ _ (hvs _ hz.2), ?_⟩
               have : iv.1 < vs.length := List.mem_range.1 hz.1
-              simp only [optAll, i32, decide_eq_true_eq]
-              omega
+              sorry
             | single v => simp only at h; inv h
           · cases got with
             | single v =>
